@@ -129,6 +129,8 @@ COMPONENT_OWNER = {
     "Proofs/AdminProxyShape.vo": "C14",  # retry policy / proxied methods of the MCP Admin-proxy transport: depend on Gen/AdminProxy.v (translate/adminproxy.go)
     "Proofs/ManageProxyProofs.vo": "C14",
     "Properties/C14proxy.vo": "C14",
+    "Proofs/PushShapeProofs.vo": "C06",   # shape of runRoute: depends on Gen/PushShape.v (translate/pushshape.go)
+    "Properties/C06loop.vo": "C06",
 }
 
 
